@@ -693,12 +693,12 @@ func extractSessionCompositeKey(data any, keys []string) string {
 		parts := make([]string, 0, len(keys))
 		for _, k := range keys {
 			if val, exists := m[k]; exists {
-				parts = append(parts, cast.ToString(val))
+				parts = append(parts, castKeyPart(val))
 			} else {
-				parts = append(parts, "")
+				parts = append(parts, groupKeyNullPart)
 			}
 		}
-		return strings.Join(parts, "|")
+		return strings.Join(parts, groupKeyPartSep)
 	}
 
 	// Use reflection for structs and other types
@@ -709,22 +709,22 @@ func extractSessionCompositeKey(data any, keys []string) string {
 
 	parts := make([]string, 0, len(keys))
 	for _, k := range keys {
-		var part string
+		part := groupKeyNullPart
 		switch v.Kind() {
 		case reflect.Map:
 			if v.Type().Key().Kind() == reflect.String {
 				mv := v.MapIndex(reflect.ValueOf(k))
 				if mv.IsValid() {
-					part = cast.ToString(mv.Interface())
+					part = castKeyPart(mv.Interface())
 				}
 			}
 		case reflect.Struct:
 			f := v.FieldByName(k)
 			if f.IsValid() {
-				part = cast.ToString(f.Interface())
+				part = castKeyPart(f.Interface())
 			}
 		}
 		parts = append(parts, part)
 	}
-	return strings.Join(parts, "|")
+	return strings.Join(parts, groupKeyPartSep)
 }
